@@ -81,7 +81,10 @@ def check_batch(o):
         for sparse in (True, False):
             for dtype, tol in ((np.float64, 1e-9), (np.float32, 2e-3)):
                 tag = "%s graph, %s storage, %s" % (gname, "sparse" if sparse else "dense", dtype.__name__)
-                m = GMRFVectorModel(data.copy(), g, mode=c["mode"], sparse=sparse, bias=c["bias"], dtype=dtype)
+                arr = data.copy()
+                m = GMRFVectorModel(arr, g, mode=c["mode"], sparse=sparse, bias=c["bias"], dtype=dtype)
+                if not np.array_equal(arr, data):
+                    bad.append(("building the model modified the caller's data array", {"edges": c["E"], "sparse": sparse}, None))
                 r = _check_stats(m, o["stats"], o["queries"], tag, tol, nv, c["E"])
                 if r:
                     bad.append((r, {"edges": c["E"], "mode": c["mode"], "bias": c["bias"]}, None))
@@ -137,7 +140,10 @@ def check_incr(o):
                 m = GMRFVectorModel(data[:a].copy(), g, mode=c["mode"], sparse=sparse, bias=c["bias"], incremental=True)
             for k, st in enumerate(o["steps"]):
                 if k > 0:
-                    m.increment(data[a:a + comp[k]].copy())
+                    chunk = data[a:a + comp[k]].copy()
+                    m.increment(chunk)
+                    if not np.array_equal(chunk, data[a:a + comp[k]]):
+                        bad.append(("increment modified the caller's data array", {"composition": comp}, None))
                     a += comp[k]
                 tag = "%s, %s storage after %d increment(s) (chunks %s)" % ("GMRFModel" if shaped else "GMRFVectorModel", "sparse" if sparse else "dense", k, comp[:k + 1])
                 r = _check_stats(m, st, o["queries"], tag, 1e-8, nv, c["E"])
@@ -194,7 +200,10 @@ def check_blocks(o):
         models = {}
         for sparse in (True, False):
             tag = "k=%d n_components=%s %s graph, %s storage" % (k, nc or None, gname, "sparse" if sparse else "dense")
-            m = GMRFVectorModel(data.copy(), g, mode=c["mode"], sparse=sparse, bias=c["bias"], n_components=nc or None)
+            arr = data.copy()
+            m = GMRFVectorModel(arr, g, mode=c["mode"], sparse=sparse, bias=c["bias"], n_components=nc or None)
+            if not np.array_equal(arr, data):
+                bad.append((tag + ": building the model modified the caller's data array", {}, None))
             try:
                 P = _dense(m.precision).astype(float)
             except Exception as e:
